@@ -170,6 +170,11 @@ def worker(run, job):
 def check(run, replay=None):
     run.build()
     if replay:
+        c = json.load(open(replay))
+        if isinstance(c, dict) and c.get('cmd') in ('searchcmp', 'searchmates'):
+            run.build()
+            from . import searchreplay
+            return searchreplay.replay_file(run, c)
         print(open(replay).read()[:3000])
         return 1
     if not B.check_layout(run.prog):
@@ -187,3 +192,5 @@ def check(run, replay=None):
                     'oracle comparison on real tactical positions']
     run.stubs |= {'abstract game', 'nested searches by contract', 'transposition table as a finite map with one arbitrary entry for the node'}
     run.parallel(worker, jobs)
+    from . import searchreplay
+    searchreplay.confirm_on_real_engine(run, 'mates')
